@@ -1,18 +1,26 @@
-// Executor for property C02 (wrappers): drives the real rest/handler.SheddingHandler with a
-// recording Shedder.  Injected with `go test -overlay`; never written under /repo.
+// Executor for property C02 (wrappers): drives the real rest/handler.SheddingHandler
+//   kind "rest":  one request at a time against a recording Shedder (every outcome class);
+//   kind "wrest": overlapping requests against ONE long-lived real load.NewAdaptiveShedder behind a
+//                 forwarding Shedder (virtual clock, injected CPU gauge), handlers blocked on gates.
+// Injected with `go test -overlay`; never written under /repo.
 package handler
 
 import (
 	"bufio"
 	"encoding/json"
+	"fmt"
+	"math"
 	"net/http"
 	"net/http/httptest"
 	"os"
+	"reflect"
 	"testing"
+	"time"
 
 	"github.com/zeromicro/go-zero/core/load"
 	"github.com/zeromicro/go-zero/core/logx"
 	"github.com/zeromicro/go-zero/core/stat"
+	"github.com/zeromicro/go-zero/core/timex"
 )
 
 type c02Rec struct {
@@ -34,6 +42,7 @@ func (r *c02Rec) Allow() (load.Promise, error) {
 }
 
 type c02RestReq struct {
+	Nil   bool  `json:"nil"` // SheddingHandler(nil, metrics): no shedder configured
 	Shed  bool  `json:"shed"`
 	Codes []int `json:"codes"`
 	Body  bool  `json:"body"`
@@ -42,7 +51,184 @@ type c02RestReq struct {
 
 type c02RestCase struct {
 	ID   int          `json:"id"`
+	Kind string       `json:"kind"`
 	Reqs []c02RestReq `json:"reqs"`
+	// kind wrest
+	Window    int64   `json:"window"`
+	Buckets   int     `json:"buckets"`
+	Threshold int64   `json:"threshold"`
+	T0        int64   `json:"t0"`
+	Ops       [][]any `json:"ops"` // ["start", now, cpu, reqIndex] | ["finish", opIndex, now]
+}
+
+// ---- kind wrest ---------------------------------------------------------------
+
+// forwards to the real shedder and records what the wrapper does with each promise
+type c02Fwd struct {
+	real load.Shedder
+	cur  *c02Flight
+}
+
+type c02Flight struct {
+	allows, passes, fails, runs int
+	gate                        chan struct{}
+	entered, returned           chan struct{}
+	rr                          *httptest.ResponseRecorder
+	panicked                    bool
+	released                    bool
+}
+
+type c02FwdProm struct {
+	p load.Promise
+	f *c02Flight
+}
+
+func (p c02FwdProm) Pass() { p.f.passes++; p.p.Pass() }
+func (p c02FwdProm) Fail() { p.f.fails++; p.p.Fail() }
+
+func (s *c02Fwd) Allow() (load.Promise, error) {
+	f := s.cur
+	f.allows++
+	p, err := s.real.Allow()
+	if err != nil {
+		return nil, err
+	}
+	return c02FwdProm{p, f}, nil
+}
+
+type c02WObs struct {
+	K      string `json:"k"`
+	Shed   bool   `json:"shed"`
+	Done   bool   `json:"done"`
+	Runs   int    `json:"runs"`
+	Allows int    `json:"allows"`
+	Passes int    `json:"passes"`
+	Fails  int    `json:"fails"`
+	Code   int    `json:"code"`
+	Panic  bool   `json:"panic"`
+	Fl     int64  `json:"fl"`
+	Am     int64  `json:"am"`
+	Ae     int    `json:"ae"`
+}
+
+func c02Num(v any) int64 {
+	if x, ok := v.(float64); ok {
+		return int64(x)
+	}
+	return 0
+}
+
+func c02Dyadic(v float64) (int64, int) {
+	if v == 0 || math.IsNaN(v) || math.IsInf(v, 0) {
+		return 0, 0
+	}
+	fr, e := math.Frexp(v)
+	return int64(fr * (1 << 53)), e - 53
+}
+
+// flying / avgFlying of the real shedder, read (not written) through reflection
+func c02Peek(sh load.Shedder) (int64, float64) {
+	v := reflect.ValueOf(sh)
+	if v.Kind() != reflect.Ptr || v.Elem().Kind() != reflect.Struct {
+		return -1, 0
+	}
+	e := v.Elem()
+	return e.FieldByName("flying").Int(), e.FieldByName("avgFlying").Float()
+}
+
+func c02RunWrest(c c02RestCase, metrics *stat.Metrics) (obs []c02WObs, stable bool, err string) {
+	stable = true
+	timex.SetFakeNow(time.Duration(c.T0))
+	real := load.NewAdaptiveShedder(load.WithWindow(time.Duration(c.Window)), load.WithBuckets(c.Buckets),
+		load.WithCpuThreshold(c.Threshold))
+	fwd := &c02Fwd{real: real}
+	flights := map[int]*c02Flight{}
+	defer func() {
+		for _, f := range flights {
+			if !f.released {
+				close(f.gate)
+			}
+		}
+	}()
+	snap := func(o *c02WObs) {
+		fl, avg := c02Peek(real)
+		o.Fl = fl
+		o.Am, o.Ae = c02Dyadic(avg)
+	}
+	for i, op := range c.Ops {
+		var o c02WObs
+		kind, _ := op[0].(string)
+		o.K = kind
+		switch kind {
+		case "start":
+			timex.SetFakeNow(time.Duration(c02Num(op[1])))
+			cpu := c02Num(op[2])
+			q := c.Reqs[int(c02Num(op[3]))]
+			f := &c02Flight{gate: make(chan struct{}), entered: make(chan struct{}), returned: make(chan struct{}),
+				rr: httptest.NewRecorder()}
+			flights[i] = f
+			next := http.HandlerFunc(func(rw http.ResponseWriter, r *http.Request) {
+				f.runs++
+				f.entered <- struct{}{}
+				<-f.gate
+				for _, code := range q.Codes {
+					rw.WriteHeader(code)
+				}
+				if q.Body {
+					rw.Write([]byte("x"))
+				}
+				if q.Panic {
+					panic("verif")
+				}
+			})
+			h := SheddingHandler(fwd, metrics)(next)
+			fwd.cur = f
+			stat.VerifSetCpuUsage(cpu)
+			go func() {
+				defer close(f.returned)
+				defer func() {
+					if e := recover(); e != nil {
+						f.panicked = true
+					}
+				}()
+				h.ServeHTTP(f.rr, httptest.NewRequest(http.MethodGet, "http://localhost/x", http.NoBody))
+			}()
+			select {
+			case <-f.entered:
+			case <-f.returned:
+				o.Shed = true
+				o.Code = f.rr.Code
+				f.released = true
+				close(f.gate)
+			case <-time.After(20 * time.Second):
+				return nil, true, fmt.Sprintf("op %d: request neither entered its handler nor returned", i)
+			}
+			if stat.CpuUsage() != cpu {
+				stable = false
+			}
+			o.Runs, o.Allows = f.runs, f.allows
+		case "finish":
+			f := flights[int(c02Num(op[1]))]
+			if f != nil && !f.released {
+				timex.SetFakeNow(time.Duration(c02Num(op[2])))
+				f.released = true
+				close(f.gate)
+				select {
+				case <-f.returned:
+				case <-time.After(20 * time.Second):
+					return nil, true, fmt.Sprintf("op %d: request did not return", i)
+				}
+				o.Done = true
+				o.Code, o.Panic = f.rr.Code, f.panicked
+			}
+			if f != nil {
+				o.Runs, o.Allows, o.Passes, o.Fails = f.runs, f.allows, f.passes, f.fails
+			}
+		}
+		snap(&o)
+		obs = append(obs, o)
+	}
+	return obs, stable, ""
 }
 
 type c02RestObs struct {
@@ -78,6 +264,30 @@ func TestVerifC02Rest(t *testing.T) {
 	defer w.Flush()
 	metrics := stat.NewMetrics("verif-c02")
 	for _, c := range cases {
+		if c.Kind == "wrest" {
+			var wobs []c02WObs
+			var errs string
+			tries := 0
+			for {
+				tries++
+				var stable bool
+				wobs, stable, errs = c02RunWrest(c, metrics)
+				if stable || tries >= 20 {
+					if !stable {
+						errs = "cpu gauge unstable"
+					}
+					break
+				}
+			}
+			m := map[string]any{"id": c.ID, "obs": wobs, "tries": tries}
+			if errs != "" {
+				m["err"] = errs
+			}
+			b, _ := json.Marshal(m)
+			w.Write(b)
+			w.WriteByte('\n')
+			continue
+		}
 		var obs []c02RestObs
 		for _, q := range c.Reqs {
 			q := q
@@ -96,6 +306,9 @@ func TestVerifC02Rest(t *testing.T) {
 				}
 			})
 			h := SheddingHandler(rec, metrics)(next)
+			if q.Nil {
+				h = SheddingHandler(nil, metrics)(next)
+			}
 			rr := httptest.NewRecorder()
 			req := httptest.NewRequest(http.MethodGet, "http://localhost/x", http.NoBody)
 			func() {
